@@ -3,7 +3,6 @@ package harness
 import (
 	"context"
 	"fmt"
-	"net/http/httptest"
 	"os"
 	"path/filepath"
 	"strings"
@@ -295,7 +294,7 @@ func runC07WithFake(c C07Case, preset *FakeServer) *Failure {
 		opts := []mcp.ClientOption{mcp.WithHTTPReqHandler(br), mcp.WithClientLogger(nopLogger{})}
 		base := "http://c07.invalid"
 		if c.FillMB > 0 {
-			ts := httptest.NewServer(fake)
+			ts := ServeTCP(fake)
 			prev := cleanup
 			cleanup = func() { prev(); ts.CloseClientConnections(); ts.Close() }
 			base = ts.URL
